@@ -132,3 +132,39 @@ def no_operator_overloading(rep, modname='engine'):
         rep.add_checked('%s.%s.semantics.no_decorator' % (modname, q), not decs,
                         'decorated with ' + ', '.join(decs) if decs else '', 'ast', function='%s.%s' % (modname, q),
                         witness=None if not decs else dict(decorators=decs, line=fn.lineno))
+
+
+OBSERVER_NAMES = ('get_value', 'to_python', 'name', '__str__', '__repr__')
+
+
+def observers_write_nothing(rep):
+    """C15: get_value / to_python (module functions and the methods of every term class) and the printing methods are observers:
+    their result is a function of the term and the current bindings only, so they store into no object that outlives the call -
+    no attribute or subscript store, no mutating call, no global; except on objects built in the same call (a fresh list, dict
+    or instance held in a local)."""
+    from . import compilerp
+    mod, fns = _functions('engine')
+    for q, fn in fns.items():
+        if q.split('.')[-1] not in OBSERVER_NAMES:
+            continue
+        fresh = compilerp._fresh_locals(mod, fn, containers=True)
+        probs = []
+        for n in core.walk_own(fn):
+            tgt = None
+            if isinstance(n, (ast.Global, ast.Nonlocal)):
+                probs.append('line %d: %s' % (n.lineno, ast.unparse(n)))
+            elif isinstance(n, (ast.Attribute, ast.Subscript)) and isinstance(n.ctx, (ast.Store, ast.Del)):
+                tgt = n
+            elif isinstance(n, ast.Call) and isinstance(n.func, ast.Attribute) and n.func.attr in compilerp.MUTATORS:
+                tgt = n.func.value
+            elif isinstance(n, ast.Call) and isinstance(n.func, ast.Name) and n.func.id in ('setattr', 'delattr'):
+                probs.append('line %d: %s' % (n.lineno, ast.unparse(n)[:60]))
+            elif isinstance(n, ast.AugAssign) and isinstance(n.target, (ast.Attribute, ast.Subscript)):
+                tgt = n.target
+            if tgt is not None and not (isinstance(tgt, ast.Name) and tgt.id in fresh) \
+                    and not (isinstance(tgt, (ast.Attribute, ast.Subscript)) and not compilerp._path_has_attribute(tgt)
+                             and compilerp._base_name(tgt) in fresh) \
+                    and not (compilerp._base_name(tgt) in fresh and isinstance(tgt, ast.Attribute) and isinstance(tgt.value, ast.Name)):
+                probs.append('line %d: writes %s' % (n.lineno, ast.unparse(tgt)[:50]))
+        rep.add_checked('engine.%s.frame.observer_writes_nothing' % q, not probs, '; '.join(probs), 'ast', function='engine.' + q,
+                        witness=probs or None)
